@@ -137,6 +137,24 @@ def perturbations(rng, el):
             p['coefficients'] = [[genbasis.respell(rng, x) for x in c] for c in p['coefficients']]
         rng.shuffle(e['ecp_potentials'])
         out.append(('ecp_renotate_shuffle_potentials', e, 0.0))
+    # a whole section present on one side only
+    if 'ecp_potentials' in el:
+        e = copy.deepcopy(el)
+        del e['ecp_potentials']
+        e.pop('ecp_electrons', None)
+        out.append(('drop_ecp_section', e, 0.0))
+        e = copy.deepcopy(el)
+        e.pop('ecp_electrons', None)
+        out.append(('drop_ecp_electrons_key', e, 0.0))
+        if 'electron_shells' in el:
+            e = copy.deepcopy(el)
+            del e['electron_shells']
+            out.append(('drop_shell_section', e, 0.0))
+    elif 'electron_shells' in el:
+        e = copy.deepcopy(el)
+        e['ecp_potentials'] = [dict(ecp_type='scalar_ecp', angular_momentum=[0], r_exponents=[2], gaussian_exponents=['1.0'], coefficients=[['1.0']])]
+        e['ecp_electrons'] = 2
+        out.append(('add_ecp_section', e, 0.0))
     return out
 
 
